@@ -22,6 +22,7 @@
 import GormModel.Lemmas.Heap
 import GormModel.Lemmas.HeapQuiet
 import GormModel.Lemmas.HeapSim
+import GormModel.Lemmas.ClauseMap
 namespace Gorm
 open Gorm.Heap
 
@@ -362,5 +363,196 @@ theorem C06_noninterference_current_tree :
 
 /-- `Linear` is decidable (the harness generator obeys it) and not vacuous -/
 example : Linear f5History.ops := (linear_iff_linearB _).2 (by decide)
+
+
+/-! ## round 2 — Session() never writes its receiver, for every combination of flags -/
+
+/-- the guards of the statement-relevant part of the REGENERATED `Session()` body test only these five flags (a new
+    guard on another flag means the flag model has to be revisited) -/
+theorem C06_session_guards_tested : ∀ f ∈ wFlags sessWProg, f ∈ wTested := by decide
+
+/-- `tx.Config` is a private copy of the receiver's config (`txConfig = *db.Config`, `Config: &txConfig`), so the
+    `tx.Config.… = …` / `txConfig.… = …` writes of `Session()` never reach the receiver -/
+theorem C06_session_config_private : sessConfigPrivate = true := by decide
+
+/-- what `Session()` must do for one valuation of the flags: follow only statements the model knows, write NO field
+    through the shared statement pointer and nothing of `db`, return; the result has clone mode 0 (Initialized) /
+    1 (NewDB) / 2, and a private statement iff Initialized ∨ Context ∨ PrepareStmt ∨ SkipHooks -/
+def SessionQuiet (S : List SessFlag) : Prop :=
+  (runW sessWProg (SessFlags.ofList S)).bad = [] ∧
+  (runW sessWProg (SessFlags.ofList S)).sharedWrites = [] ∧
+  (runW sessWProg (SessFlags.ofList S)).returned = true ∧
+  (runW sessWProg (SessFlags.ofList S)).cfgPrivate = true ∧
+  (runW sessWProg (SessFlags.ofList S)).clone = (if S.contains .initialized then 0 else if S.contains .newDB then 1 else 2) ∧
+  (runW sessWProg (SessFlags.ofList S)).shared =
+    !(S.contains .initialized || S.contains .hasContext || S.contains .prepareStmt || S.contains .skipHooks)
+
+instance (S : List SessFlag) : Decidable (SessionQuiet S) := by unfold SessionQuiet; exact inferInstance
+
+theorem C06_session_all_subsets : ∀ S ∈ flagSubsets wTested, SessionQuiet S := by
+  set_option maxRecDepth 20000 in decide
+
+/-- MAIN (Session): for EVERY combination of the fifteen Session flags, `db.Session(&Session{…})` — read from the
+    regenerated body — writes no field of the receiver's statement (`tx.Statement.Context / SkipHooks / ConnPool / DB`
+    are only assigned after `tx.Statement = tx.Statement.clone()` has made the statement private), writes nothing of
+    `db` directly, and its config writes go to a private copy.  Building a session, used or not, cannot change what
+    the parent's later chains do. -/
+theorem C06_session_never_writes_receiver (fl : SessFlags) :
+    (sessW fl).bad = [] ∧ (sessW fl).sharedWrites = [] ∧ (sessW fl).returned = true ∧ (sessW fl).cfgPrivate = true := by
+  have h := C06_session_all_subsets (wTested.filter fl) (filter_mem_subsets fl wTested)
+  unfold SessionQuiet at h
+  rw [← runW_restrict sessWProg wTested C06_session_guards_tested fl] at h
+  exact ⟨h.1, h.2.1, h.2.2.1, h.2.2.2.1⟩
+
+/-- … and what it returns: clone mode 0 / 1 / 2 and whether the new handle still shares the receiver's statement -/
+theorem C06_session_result (fl : SessFlags) :
+    (sessW fl).clone = (if fl .initialized then 0 else if fl .newDB then 1 else 2) ∧
+    (sessW fl).shared = !(fl .initialized || fl .hasContext || fl .prepareStmt || fl .skipHooks) := by
+  have h := C06_session_all_subsets (wTested.filter fl) (filter_mem_subsets fl wTested)
+  unfold SessionQuiet at h
+  rw [← runW_restrict sessWProg wTested C06_session_guards_tested fl] at h
+  have e : ∀ f ∈ wTested, (wTested.filter fl).contains f = fl f := fun f hf =>
+    (ofList_filter_agree wTested fl f hf).symm
+  rw [e .initialized (by decide), e .newDB (by decide), e .hasContext (by decide), e .prepareStmt (by decide),
+    e .skipHooks (by decide)] at h
+  exact ⟨h.2.2.2.2.1, h.2.2.2.2.2⟩
+
+/-- `getInstance()` (regenerated body) assigns only to the NEW handle `tx` and its fields -/
+theorem C06_getInstance_never_writes_receiver : getInstanceWritesOnlyTx = true := by decide
+
+/-- non-vacuity: `Session{NewDB, SkipHooks, Context}` clones before it writes; plain `Session{NewDB}` shares and writes nothing -/
+example : (sessW (SessFlags.ofList [.newDB, .skipHooks, .hasContext])).shared = false ∧
+    (sessW (SessFlags.ofList [.newDB])).shared = true ∧ sessWProg.length ≥ 9 := by decide
+
+/-! ## round 2 — Statement.clone keeps every clause entry, whatever its shape -/
+open ClauseMap
+
+/-- the regenerated copy loops of `Statement.clone`: `for k, c := range stmt.Clauses { newStmt.Clauses[k] = c }` and the
+    Preloads loop are single unconditional assignments (no if / continue / switch in the body), the Settings callback
+    stores every pair, and there are no further range loops -/
+theorem C06_clone_loop_unconditional :
+    copiesAll "stmt.Clauses" "newStmt.Clauses[k] = c" = true ∧
+    copiesAll "stmt.Preloads" "newStmt.Preloads[k] = p" = true ∧
+    Gen.cloneSettingsRange = ["newStmt.Settings.Store(k, v)", "return true"] ∧ Gen.cloneSettingsGuards = 0 ∧
+    Gen.cloneRangeLoops.length = 2 := by decide
+
+/-- MAIN (clone): the clone's clause map is the receiver's, entry for entry -/
+theorem C06_clone_keeps_every_clause (m : CMap) : cloneMap m = some m := by
+  simp [cloneMap, cloneMapWith, C06_clone_loop_unconditional.1]
+
+/-- … in the form that names the shapes: every entry of the receiver — `expr = none` with only a Before / AfterName /
+    After expression or a Builder (hints), or completely empty (`soft_delete_enabled`) — is in the clone with identical
+    fields, and the clone has no other entries -/
+theorem C06_clone_keeps_every_shape (m : CMap) (e : CEntry) (he : e ∈ m) :
+    ∃ c, cloneMap m = some c ∧ e ∈ c ∧ ∀ x ∈ c, x ∈ m :=
+  ⟨m, C06_clone_keeps_every_clause m, he, fun _ h => h⟩
+
+/-- every chain started from a reusable handle starts from exactly the handle's map (clone ≥ 2), from the empty map
+    (clone 1), or continues its own (clone 0) -/
+theorem C06_chain_start (m : CMap) (n : Nat) :
+    start 0 m = some m ∧ start 1 m = some [] ∧ start (n + 2) m = some m :=
+  ⟨rfl, rfl, C06_clone_keeps_every_clause m⟩
+
+theorem apply_keeps_before (m : CMap) (k : String) (o : ClauseMap.Op)
+    (ho : o.key = k → (∃ x, o = .add k x) ∨ (∃ p x, o = .modify k (p + 1) x) ∨ o = .setBuilder k) :
+    (lookup (apply m o) k).before = (lookup m k).before := by
+  cases o with
+  | add k' x =>
+    by_cases hk : k' = k
+    · subst hk; simp [apply, lookup_store]
+    · simp [apply, lookup_store, hk]
+  | modify k' p x =>
+    by_cases hk : k' = k
+    · subst hk
+      rcases ho rfl with ⟨_, h⟩ | ⟨p', x', h⟩ | h
+      · cases h
+      · cases h
+        cases p' with
+        | zero => simp [apply, lookup_store]
+        | succ q => simp [apply, lookup_store]
+      · cases h
+    · cases p with
+      | zero => simp [apply, lookup_store, hk]
+      | succ q =>
+        cases q with
+        | zero => simp [apply, lookup_store, hk]
+        | succ q' => simp [apply, lookup_store, hk]
+  | setBuilder k' =>
+    by_cases hk : k' = k
+    · subst hk; simp [apply, lookup_store]
+    · simp [apply, lookup_store, hk]
+  | mark k' =>
+    by_cases hk : k' = k
+    · subst hk
+      rcases ho rfl with ⟨_, h⟩ | ⟨_, _, h⟩ | h <;> cases h
+    · simp [apply, lookup_store, hk]
+  | del k' =>
+    by_cases hk : k' = k
+    · subst hk
+      rcases ho rfl with ⟨_, h⟩ | ⟨_, _, h⟩ | h <;> cases h
+    · simp [apply, lookup_remove_ne _ _ _ hk]
+
+/-- a hint survives derivation: a `BeforeExpression` put on key `k` of a reusable handle's statement (entry possibly
+    without any Expression yet) is still there on every chain started from the handle, after any number of chain methods
+    that merge clauses under any key (also `k` itself), decorate other positions, install builders or mark / delete
+    OTHER keys -/
+theorem C06_hint_survives_derivation (m : CMap) (k : String) (b : Nat) (ops : List ClauseMap.Op) (n : Nat)
+    (hb : (lookup m k).before = some b)
+    (hops : ∀ o ∈ ops, o.key = k → (∃ x, o = .add k x) ∨ (∃ p x, o = .modify k (p + 1) x) ∨ o = .setBuilder k) :
+    ∃ s, start (n + 2) m = some s ∧ (lookup (ops.foldl apply s) k).before = some b := by
+  refine ⟨m, C06_clone_keeps_every_clause m, ?_⟩
+  induction ops generalizing m with
+  | nil => simpa using hb
+  | cons o r ih =>
+    simp only [List.foldl_cons]
+    apply ih
+    · rw [apply_keeps_before m k o (hops o (by simp))]; exact hb
+    · exact fun o' ho' => hops o' (by simp [ho'])
+
+example : (lookup [({ key := "SELECT", before := some 7 } : CEntry)] "SELECT").before = some 7 := by decide
+
+/-! ## round 2 — a query leaves the caller's FROM joins exactly as they were -/
+
+/-- the regenerated restore of `AfterQuery` and the regenerated construction in `BuildQuerySQL` are what the model
+    assumes: FROM is restored as `clause.From{Tables: v.Tables, Joins: utils.RTrimSlice(v.Joins, len(db.Statement.Joins))}`
+    whenever the FROM entry holds a `clause.From`, `fromClause` starts as the statement's own FROM, every other write to
+    `fromClause.Joins` is an append inside the loop over `db.Statement.Joins`, and RTrimSlice cuts a suffix -/
+theorem C06_after_query_facts :
+    fromRestore = .rtrimJoins ∧ Gen.afterQueryFromLiteral.length = 2 ∧
+    Gen.afterQueryFromLiteral.contains ("Tables", "v.Tables") = true ∧
+    Gen.afterQueryFromGuard = "v, ok := db.Statement.Clauses[\"FROM\"].Expression.(clause.From) ; ok" ∧
+    Gen.afterQueryFromStore.length = 3 ∧
+    Gen.afterQueryFromStore.getLast? = some "db.Statement.Clauses[\"FROM\"] = fromClause" ∧
+    Gen.buildFromInit = ["fromClause := clause.From{}", "fromClause = v"] ∧ Gen.buildFromJoinOther = 0 ∧
+    Gen.buildFromJoinAppendLoops.all (· == "db.Statement.Joins") = true ∧
+    Gen.buildFromJoinAppendLoops.length = Gen.buildFromJoinAppends ∧
+    Gen.rtrimSliceSrc = "{ if trimLen >= len(v) { return v[:0] } if trimLen < 0 { return v[:] } return v[:len(v)-trimLen] }" := by
+  decide
+
+/-- MAIN (query): whatever joins the CALLER put into the FROM clause (`Clauses(clause.From{Joins: …})`) and whatever
+    `Statement.Joins` holds, after an executed query the FROM clause holds exactly the caller's joins again — provided
+    every element of `Statement.Joins` generates one join clause (raw joins, single relations) -/
+theorem C06_after_query_restores_from (caller : List Nat) (gens : List (List Nat)) (h : ∀ g ∈ gens, g.length = 1) :
+    queryRound fromRestore caller gens = some caller := by
+  rw [C06_after_query_facts.1]
+  simp only [queryRound, afterQueryWith, buildFrom]
+  rw [← length_flatten_of_singletons gens h, rtrim_append]
+
+/-- … any number of executed queries -/
+theorem C06_query_rounds_idempotent (caller : List Nat) (gens : List (List Nat)) (h : ∀ g ∈ gens, g.length = 1) (k : Nat) :
+    queryRounds fromRestore gens k caller = some caller := by
+  induction k with
+  | zero => rfl
+  | succ k ih => simp [queryRounds, C06_after_query_restores_from caller gens h, ih]
+
+/-- the hypothesis matters: a nested join (`Joins("Manager.Company")`) generates TWO clauses for one element of
+    `Statement.Joins`; the restore trims one — the instance keeps a generated join (outside the property: a chain
+    instance used again) -/
+example : queryRound .rtrimJoins [7] [[1, 2]] = some [7, 1] := by decide
+example : queryRound .rtrimJoins [7, 8] [[1], [2]] = some [7, 8] := by decide
+
+/-- `Count` restores what it changes: each of its immediate writes to the clause map (SELECT, ORDER BY) and to
+    `Model` has a deferred write to the same target (regenerated list of its statement writes) -/
+theorem C06_count_restores : countRestoresAll = true := by decide
 
 end Gorm
